@@ -15,6 +15,7 @@ func init() {
 			Harness{Fn: "ZZC07Stdin", Expect: []string{"stdin-unparsable", "stdin-formatted", "stdin-checked", "witness:end"}},
 		)},
 		Assumptions: []string{
+			"ZZC18Txtar: archives of 2..M .evy members of every content class, -w and -c; ZZC07Stdin",
 			"ZZC07CheckFiles: evy fmt -c over 1..FILES files (plain and txtar) in every order",
 			"model file system: a map path -> (bytes, mode); os.ReadFile/CreateTemp/Create/OpenFile/WriteFile/Stat/Chmod/Rename/Remove and (*os.File).Write/Close/Chmod/Sync/Stat are stubs bound to it; rename is atomic; a failing write leaves half of the data behind",
 			"the k-th file-system call fails with ENOSPC/EIO/EACCES (single fault), or the process is killed after the k-th call; permission bits are a symbolic 9-bit value with the owner-read bit set",
